@@ -165,8 +165,21 @@ impl CommandParser {
             // 1. Fully qualified: tauri::AppHandle, tauri::State<T>, tauri::ipc::Request
             // 2. Imported: AppHandle, State<T>, Window<T>
             if segments.len() >= 2 {
+                // ipc::Channel / ipc::Request after `use tauri::ipc;` (the channel parser takes
+                // ipc::Channel for a channel, with or without a message type)
+                if segments.len() == 2 && segments[0].ident == "ipc" {
+                    let second = &segments[1].ident;
+                    return second == "Request" || second == "Channel";
+                }
                 // Check for tauri::* or tauri::ipc::*
                 if segments[0].ident == "tauri" {
+                    // the defining modules: tauri::window::Window, tauri::webview::WebviewWindow
+                    if segments.len() == 3
+                        && (segments[1].ident == "window" || segments[1].ident == "webview")
+                    {
+                        let third = &segments[2].ident;
+                        return third == "Window" || third == "WebviewWindow";
+                    }
                     if segments.len() == 2 {
                         // tauri::AppHandle, tauri::Window, etc.
                         let second = &segments[1].ident;
